@@ -185,7 +185,11 @@ def monotone_checks(res, gam, ref, Xq, d, rng):
     def bad(what, observed, expected, extra=None):
         res.violations.append(dict(what=what, finding=None, input=dict(d, X=[[float(x) for x in r] for r in Xq], **(extra or {})), observed=observed, expected=expected))
     fin = np.isfinite(ci).all(axis=1)
-    slack = 1e-12 * (np.abs(ci).max(axis=1, initial=0.0) + 1e-300)
+    # rounding scale of a bound: relative to its size and to the size of the terms that cancel in the linear predictor (sum_j |B_ij coef_j|)
+    lpabs_all = np.abs(ref.B) @ np.abs(ref.coef)
+    # ... and, at the median, to the half-width scale: the t quantile at 1/2 is a rounding-size number, not exactly 0
+    sd_pred = np.sqrt(np.maximum(ref.parts(list(range(len(ref.coef))), True)[2], 0.0))
+    slack = 1e-12 * (np.abs(ci).max(axis=1, initial=0.0) + lpabs_all + sd_pred + 1e-300)
     res.case((d['index'], 'ordered'))
     if ((np.diff(ci, axis=1) < -slack[:, None]) & fin[:, None]).any():
         bad('confidence bounds are not non-decreasing in the quantile level', ci.tolist(), 'non-decreasing along increasing levels', dict(levels=qs))
